@@ -36,3 +36,5 @@ COSIM_MAIN_END
 void GSD_ctor(struct GSD *d) { memset(d, 0, sizeof *d); } bool GSD_Create(struct GSD *d, struct DecoderBuffer *b) { return false; } uint32_t GSD_num_symbols(const struct GSD *d) { return 0; }
 bool GSD_StartDecoding(struct GSD *d, struct DecoderBuffer *b) { return false; } uint32_t GSD_DecodeSymbol(struct GSD *d) { return 0; } void GSD_EndDecoding(struct GSD *d) {}
 void GBITS_Start(struct DecoderBuffer *b) {} bool GBITS_Decode(struct DecoderBuffer *b, uint32_t nbits, uint32_t *v) { return false; } void GBITS_End(struct DecoderBuffer *b) {}
+struct EncoderBuffer; bool EncoderBuffer_Encode_u8(struct EncoderBuffer *self, const uint8_t *data);
+bool EncoderBuffer_Encode_u8_val(struct EncoderBuffer *b, uint8_t v) { return EncoderBuffer_Encode_u8(b, &v); }
